@@ -23,8 +23,14 @@ class Clause:
 
     bounded: bool = False
     ghost: bool = False               # mentions ghost fields: not evaluable at run time
+    composed: bool = False
 
     def __post_init__(self):
+        if self.label.endswith('[composed]'):
+            # not proved in the function's own body: composition of other proved clauses (named next to the
+            # clause) and a stated assumption; assumed at call sites and listed as an assumption in evidence
+            self.label = self.label[: -len('[composed]')]
+            self.composed = True
         if self.label.endswith('[ghost]'):
             self.label = self.label[: -len('[ghost]')]
             self.ghost = True
